@@ -12,11 +12,6 @@ func C18_Ops[T signal.SignalTypes]() {
 	base := allocAny[T](C, K, "base")
 	s, e := window("w", K)
 	w := base.Slice(s, e)
-	in := anySlice[T]("in", vf.Pick("n", 0, C*K+1))
-	str := make([][]T, C)
-	for c := range str {
-		str[c] = anySlice[T]("str", vf.Pick("sl", 0, K))
-	}
 	x := vf.Any[T]("x")
 	n := 0
 	switch vf.Pick("op", 0, 7) {
@@ -38,12 +33,17 @@ func C18_Ops[T signal.SignalTypes]() {
 		})
 	case 2:
 		vf.Cover("read-write")
+		in := anySlice[T]("in", vf.Pick("n", 0, C*K+1))
 		n = vf.Allocs(func() {
 			signal.Write(in, w)
 			signal.Read(w, in)
 		})
 	case 3:
 		vf.Cover("striped")
+		str := make([][]T, C)
+		for c := range str {
+			str[c] = anySlice[T]("str", vf.Pick("sl", 0, K))
+		}
 		n = vf.Allocs(func() {
 			signal.WriteStriped(str, w)
 			signal.ReadStriped(w, str)
